@@ -14,8 +14,8 @@ namespace dsim { extern thread_local int t_bypass; }
 namespace seqc {
 using namespace vh;
 
-enum { PUSH = 0, POP = 1, PUSH_FRONT = 2, POP_BACK = 3 };
-static const char* const opnames[] = {"push", "pop", "push_front", "pop_back", nullptr};
+enum { PUSH = 0, POP = 1, PUSH_FRONT = 2, POP_BACK = 3, BARRIER = 4 };
+static const char* const opnames[] = {"push", "pop", "push_front", "pop_back", "barrier", nullptr};
 
 // ---- SMR set-up policies (constructed on simulated thread 0, destroyed at the end of the run)
 struct SmrNone { explicit SmrNone(const Program&) {} static void eager() {} static const char* name() { return "none"; } };
@@ -77,13 +77,14 @@ template <class A> void run(Ctx& ctx) {
     cds::threading::Manager::attachThread();
     {
         A a(P);
-        ctx.aux[0] = a.capacity();
+        ctx.aux[0] = a.capacity(); ctx.aux[1] = a.model_override(P);
         Op o; int nid = 1000;
         for (long i = 0; i < P.knob("prefill"); i++) { o = Op(); o.id = nid++; o.kind = PUSH; o.a = 10 + i; int h = ctx.begin_op(99, o); bool ok = a.push(o.a, 0); ctx.end_op(h, ok); }
         int eager = (int)P.knob("eager");
         ctx.run_clients(
             [&](int) { cds::threading::Manager::attachThread(); },
             [&](int i, const Op& op) {
+                if (op.kind == BARRIER) { dsim::set_op(op.id); dsim::barrier((int)op.a, (int)op.b); return; }
                 int h = ctx.begin_op(i, op); long v = -1; bool ok = false;
                 switch (op.kind) {
                 case PUSH: ok = a.push(op.a, (int)op.b); break;
@@ -106,13 +107,13 @@ template <class A> void run(Ctx& ctx) {
 }
 
 template <class A> void check(Ctx& ctx) {
-    SeqModel m(A::kind, ctx.aux[0], A::pop_empty_unconstrained);
+    SeqModel m(ctx.aux[1] > 0 ? (SeqModel::Kind)(ctx.aux[1] - 1) : A::kind, ctx.aux[0], ctx.aux[1] > 0 ? false : A::pop_empty_unconstrained);
     LinChecker<SeqModel> lc(m, ctx.hist);
     LinResult r = lc.check(SeqModel::State());
     ctx.probe("lin_nodes", r.nodes);
     if (r.inconclusive) { ctx.probe("lin_inconclusive"); return; }
     if (!r.ok) ctx.fail("not-linearizable", "history of %d operations is not linearizable to the sequential %s model: %s", (int)ctx.hist.size(),
-                        A::kind == SeqModel::FIFO ? "FIFO" : A::kind == SeqModel::LIFO ? "LIFO" : A::kind == SeqModel::DEQUE ? "deque" : A::kind == SeqModel::PQMAX ? "max-priority-queue" : "bag", describe_history(ctx.hist, opnames, 24).c_str());
+                        m.kind == SeqModel::FIFO ? "FIFO" : m.kind == SeqModel::LIFO ? "LIFO" : m.kind == SeqModel::DEQUE ? "deque" : m.kind == SeqModel::PQMAX ? "max-priority-queue" : "bag", describe_history(ctx.hist, opnames, 24).c_str());
 }
 
 inline void tune_default(dsim::Params& p, Rng& r, const Program&, const std::string&) { p.soft_cap = 150000; p.hard_cap = 300000; p.f8_permille = r.pick({0, 0, 5, 30}); p.f6_permille = r.pick({0, 0, 10}); }
